@@ -541,9 +541,6 @@ func (c *c38Hist) stepExport(n int) {
 			start, end = end, start
 		}
 	}
-	if err := c.s.Snapshot(); err != nil {
-		c.fatal("snapshot", err)
-	}
 	srcFiles := c38DataFiles(c.s.DataPath())
 	srcTomb := 0
 	for _, f := range srcFiles {
@@ -694,9 +691,16 @@ func c38History(r *vkit.Run, caseNo int) {
 	c.write()
 	c.history()
 	v0 := r.Violations()
-	c.stepIncremental()
+	// the full backup and the exports are taken with acknowledged points still in the cache (no snapshot since)
+	if rg.Chance(2, 3) {
+		c.write()
+	}
 	c.stepRestore()
-	for i, n := 0, 2; i < n; i++ {
+	c.stepIncremental()
+	for i := 0; i < 2; i++ {
+		if rg.Chance(2, 3) {
+			c.write()
+		}
 		c.stepExport(i)
 	}
 	npts := 0
@@ -722,7 +726,7 @@ func TestC38(t *testing.T) {
 	defer r.Finish()
 	r.Rule("case = random history (6–18 of write/snapshot/delete/compaction with 2–5 points per block/reopen; half of the histories without deletes) on a real shard, followed by incremental Backup(since) with explicit mtimes, full Backup→Restore into a fresh shard, and two Export(start,end)→Import into empty shards; compared with model M1. Non-trivial: model holds ≥5 points and ≥1 TSM file exists. Distinct = hash of the op log (includes file names and archives).")
 	r.Assume("points exactly at start or end of an export range may be exported or not", "files with mtime == since may be in the incremental archive or not", "Import's re-enabled background compaction loop is switched off again before reading (its first tick is 1 s away)")
-	n := r.N(40, 1000)
+	n := r.N(40, 600)
 	for i := 0; i < n; i++ {
 		c38History(r, i)
 	}
